@@ -3,7 +3,9 @@
 Stages (per format: OFF, ASCII STL, binary STL, ASCII PLY, binary PLY, segment CSV)
   G   TLC enumerates CodecFaults: every valid variant of the format x every structured fault
       (truncation at every line and inside lines, every token replaced by every value of its
-      adversarial set, dropped / duplicated tokens and lines, blank lines).
+      adversarial set, dropped / duplicated tokens and lines, blank lines) and every byte-level fault
+      (the rendered file cut at, damaged at or extended at 25 (97) evenly spread byte positions
+      with eight adversarial byte values).
   R   the harness renders each case to bytes and runs every decoder of the format on it
       (mesh-level reader, streaming reader to EOF, header decoder) with a deadline, a panic
       guard and an allocation meter; a process death is attributed to the case that caused it.
@@ -62,7 +64,7 @@ def run(ctx):
     ctx.level = "fault_enumeration"
     ctx.rule = ("every (valid variant x structured fault) pair of the token-stream model CodecFaults.tla for six formats, "
                 "each run through every decoder of the format; non-trivial = faulted inputs (all but the unfaulted files)")
-    ctx.assumptions = ["faults are structured (token level); arbitrary byte mutations are only reached through them",
+    ctx.assumptions = ["faults are structured (token level) plus single-byte cuts / replacements / insertions at evenly spread positions; multi-byte random damage is not enumerated",
                        "allocation bound 4 MiB + 1 KiB per input byte (TotalAlloc delta of the decoder call)",
                        "a truncated binary STL cut at a record boundary may be accepted (the property allows data or error)"]
     ctx.build_harness()
